@@ -417,7 +417,13 @@ func TestVerif_C02_Exhaustive(t *testing.T) {
 				return
 			}
 			m.Case()
-			m.Class(sc.String())
+			if len(steps) <= 2 {
+				m.Class(sc.String())
+			} else {
+				m.DistinctN(1) // every enumerated script is generated exactly once; 10^7 signatures are not stored
+				last := steps[len(steps)-1]
+				m.Count(fmt.Sprintf("depth3_last:csid=%s,fmt=%d,fault%d", verifCsidClasses[last.csid].name, last.fmt, last.fault), 1)
+			}
 			verifCountWire(m, wire)
 			if wire.faulty {
 				m.Count(fmt.Sprintf("fault_mode_%d", steps[len(steps)-1].fault), 1)
